@@ -13,6 +13,11 @@ def _skip():
     return Skip
 
 
+def _implfail():
+    from .arraymodel import ImplFailure
+    return ImplFailure
+
+
 def _edge_job(batch):
     b = _CTX['binding']
     mg = _CTX['mg']
@@ -24,6 +29,8 @@ def _edge_job(batch):
             out.append(_run_edge(b, mg, m, idx, cfgi, props))
         except _skip() as e:
             out.append({'idx': idx, 'skipped': str(e), 'mism': {}})
+        except _implfail() as e:
+            out.append({'idx': idx, 'cfg': {}, 'label': m.label(), 'mism': {p: [('create_start_state', str(e)[:400], None)] for p in props}})
         except Exception:
             out.append({'idx': idx, 'error': traceback.format_exc()})
     return out
@@ -105,6 +112,9 @@ def _path_job(batch):
             out.append(_run_path(b, mg, path, pi, cfgi, props))
         except _skip() as e:
             out.append({'idx': pi, 'skipped': str(e), 'mism': {}, 'labels': []})
+        except _implfail() as e:
+            out.append({'idx': pi, 'cfg': {}, 'labels': [], 'steps': 0, 'at': 0,
+                        'mism': {p: [('create_start_state', str(e)[:400], None)] for p in props}})
         except Exception:
             out.append({'idx': pi, 'error': traceback.format_exc()})
     return out
